@@ -1152,6 +1152,12 @@ class SX:
         m = getattr(self, "ex_" + type(stmt).__name__, None)
         if m is None:
             self.unsupported("statement %s" % type(stmt).__name__, stmt)
+        rf = getattr(self.unit, "refined", None)
+        if rf and not self.spec_mode and isinstance(stmt, ast.Expr) and isinstance(stmt.value, ast.Call) \
+                and isinstance(stmt.value.func, ast.Attribute) and isinstance(stmt.value.func.value, ast.Name) \
+                and stmt.value.func.value.id in rf and stmt.value.func.attr in ("add", "append"):
+            cname = rf[stmt.value.func.value.id][0]
+            return self._ex_with_hints(m, stmt, st, {"_el": "@arg0"}, [], [("element-in-%s" % cname, "matches(_el, '%s')" % cname)])
         sh = getattr(self.unit, "stmt_hints", None)
         if sh and not self.spec_mode and isinstance(stmt, (ast.Expr, ast.Assign, ast.AugAssign)):
             src = ast.unparse(stmt)
